@@ -31,7 +31,8 @@ NO_PANIC = (
     ' as core::ops::DerefMut>::deref_mut', ' as core::cmp::PartialEq', ' as core::default::Default>::default', ' as core::convert::TryInto<',
     'alloy_sol_types::', 'alloy_primitives::', 'ruint::', 'soroban_sdk::Bytes::to_alloc_vec', 'soroban_sdk::Bytes::from_slice', 'soroban_sdk::BytesN::<32>::from_array',
     'soroban_sdk::String::from_str', 'core::num::<impl i128>::from_le_bytes', 'core::slice::<impl [u8]>::len', 'core::slice::<impl [u8]>::is_empty',
-    'core::slice::<impl [u8]>::get::<',
+    'core::slice::<impl [u8]>::get::<', 'core::slice::<impl [u8]>::iter', '<core::slice::Iter<\'_, u8> as core::iter::Iterator>::next',
+    'core::num::<impl i128>::is_negative', 'core::num::<impl i128>::is_positive',
     'alloc::string::String::from_utf8', 'soroban_sdk::String::len', 'impl core::convert::TryFrom<alloy_primitives::Uint<256, 4>> for i128>::try_from', ' as core::ops::Try>::branch', ' as core::ops::FromResidual',
 )
 GUARDED_PANIC = {
@@ -255,6 +256,8 @@ def check(P, rep):
             hi = guard_sel(g, lambda c_: c_[0] == 'cmp' and c_[1] == 'eq' and const_int(core(c_[3])) == 0 and is_half(c_[2], 'RangeFrom') or
                            c_[0] == 'cmp' and c_[1] == 'eq' and const_int(core(c_[2])) == 0 and is_half(c_[3], 'RangeFrom'))
             lo = guard_sel(g, lambda c_: c_[0] == 'cmp' and c_[1] == 'le' and const_int(core(c_[2])) == 0 and is_half(c_[3], 'RangeTo'))
+            if not hi:
+                hi = all_zero_high_half(g)
             lib_idiom = any('amount' in f and is_try_from_amount(f['amount']) for _, f in builds)
             if lib_idiom:
                 rep.ok('C10.R5', 'amount converted with the library\'s checked i128::try_from(uint256) (rejects values above i128::MAX)', entry_id(g))
@@ -298,12 +301,15 @@ def check(P, rep):
                         if fld is None:
                             continue
                         nsome += 1
-                        ne = guard_sel(g, lambda c_: c_[0] == 'false' and c_[1][0] == 'call' and c_[1][1].endswith('[u8]>::is_empty') and same(core(c_[1][2][0]), fld))
+                        ne = guard_sel(g, lambda c_: (c_[0] == 'false' and c_[1][0] == 'call' and c_[1][1].endswith('[u8]>::is_empty') and same(core(c_[1][2][0]), fld))
+                                       or (c_[0] == 'cmp' and c_[1] == 'ne' and is_len_of(c_[2], fld) and const_int(core(c_[3])) == 0)
+                                       or (c_[0] == 'cmp' and c_[1] == 'lt' and const_int(core(c_[2])) == 0 and is_len_of(c_[3], fld)))
                         ok, _, w = mg(g, [(ctx.id, d['bb'])], (), edges(ne)) if ne else (False, None, None)
                         rep.check(ok, 'C10.R8', 'decode:%s:some-only-if-nonempty' % fld[1], 'Some(bytes) is built only behind "the sol field is not empty" (empty decodes to None)',
                                   site(g, ctx, d['bb']), None, w)
             rep.floor('optional-bytes Some constructions in Message::abi_decode', nsome, 2)
-            em = guard_sel(g, lambda c_: c_[0] in ('true', 'false') and c_[1][0] == 'call' and c_[1][1].endswith('[u8]>::is_empty'))
+            em = guard_sel(g, lambda c_: (c_[0] in ('true', 'false') and c_[1][0] == 'call' and c_[1][1].endswith('[u8]>::is_empty'))
+                           or (c_[0] == 'cmp' and c_[1] in ('eq', 'ne') and is_len_of(c_[2], None) and const_int(core(c_[3])) == 0))
             rep.floor('empty-bytes guards in Message::abi_decode', len(em), 2)
     # R3 bijection
     for s in ('InterchainTransfer', 'DeployInterchainToken', 'SendToHub', 'ReceiveFromHub'):
@@ -367,6 +373,42 @@ def is_try_from_amount(t):
         a = core(t[2][0])
         return a[0] == 'field' and a[1] == 'amount' and decode_call(a[2], 'InterchainTransfer') is not None
     return False
+
+
+def is_len_of(t, fld):
+    """length of the byte slice `fld` (any when fld is None): `x.len()` or the slice-pattern length test"""
+    t = core(t)
+    if t[0] == 'un' and t[1] == 'PtrMetadata':
+        return fld is None or same(core(t[2]), fld)
+    if t[0] == 'call' and t[1].endswith('[u8]>::len'):
+        return fld is None or same(core(t[2][0]), fld)
+    return False
+
+
+def all_zero_high_half(g):
+    """the other spelling of 'the high 128 bits are zero': `le_bytes[16..].iter().all(|b| b == 0)`.  Returns the exhausted-edges of a
+    loop over amount_le_bytes[16..] whose every iteration can only continue through `element == 0`"""
+    def is_hi_slice(x):
+        x = core(x)
+        if not (x[0] == 'call' and 'core::ops::RangeFrom<usize>> for [u8]>::index' in x[1]):
+            return False
+        rng = fields_of(core(x[2][1])) or {}
+        amt = core(x[2][0])
+        return const_int(core(rng.get('start', ('u',)))) == 16 and amt[0] == 'field' and amt[1] == 'amount' and decode_call(amt[2], 'InterchainTransfer') is not None
+    done = guard_sel(g, lambda c_: c_[0] == 'absent' and c_[1][0] == 'next' and is_hi_slice(c_[1][1]))
+    more = guard_sel(g, lambda c_: c_[0] == 'present' and c_[1][0] == 'next' and is_hi_slice(c_[1][1]))
+    zero = guard_sel(g, lambda c_: c_[0] == 'cmp' and c_[1] == 'eq' and c_[2][0] == 'elem' and is_hi_slice(c_[2][1]) and const_int(core(c_[3])) == 0)
+    if not (done and more and zero):
+        return []
+    heads = set((gd.ctx.id, gd.bb) for gd in more)
+    # after taking an element, the loop head (and so the exhausted edge) is reachable again only through `element == 0`
+    after = g.nodes_of(g.states_after_edges(edges(more), (), edges(zero)))
+    prev = set()
+    for (cid, bb) in heads:
+        prev |= set((cid, p_) for p_ in g.ctxs[cid].body['preds'][bb])
+    if after & (heads | prev):
+        return []
+    return done
 
 
 def is_prefix_get(t, pl, n):
